@@ -605,7 +605,7 @@ impl DeconstructedPat {
     }
 }
 
-fn struct_field_tys(
+pub(crate) fn struct_field_tys(
     statics: &StaticsContext,
     struct_def: &Rc<StructDef>,
     args: &[Type],
